@@ -23,6 +23,10 @@ logging.disable(logging.CRITICAL)
 def load_reaction(name, formalism):
     from ampform.helicity.align.dpd import relabel_edge_ids
 
+    # DPD needs edge ids 0..3 (relabelled); axis-angle alignment needs the original ids (-1 = initial state)
+    original_ids = name.endswith("@orig")
+    name = name.removesuffix("@orig")
+
     from . import ampl
 
     if name.startswith("synth"):
@@ -38,7 +42,7 @@ def load_reaction(name, formalism):
         r = ampl.make_reaction(spec)
     else:
         r = ampl.real_reaction(name, formalism)
-    return relabel_edge_ids(r)
+    return r if original_ids else relabel_edge_ids(r)
 
 
 def resonance_names(reaction):
@@ -102,7 +106,7 @@ class World:
             bl.config.spin_alignment = NoAlignment() if a == "none" else AxisAngleAlignment() if a == "axis" else DalitzPlotDecomposition(int(a[3]))
         elif name == "SetStable":
             s = act[2]
-            bl.config.stable_final_state_ids = None if s == "none" else set(ids) if s == "all" else {ids[0]}
+            bl.config.stable_final_state_ids = None if s == "none" else set(ids) if s == "all" else {ids[0]} if s == "one" else {max(ids) + 7}
         elif name == "SetScalar":
             bl.config.scalar_initial_state_mass = bool(act[2])
         elif name == "SetCoup":
